@@ -68,6 +68,7 @@ Definition value_case_ok (k : rcase U) : bool :=
 (* a case of a group split: has_group [uuid, name] *)
 Definition group_case_ok (k : rcase U) : bool :=
   str_eqb (k_type k) has_group_type
+  && match k_group k with Some _ => true | None => false end
   && match k_args k with [g] => nonempty g && negb (is_no_response g) | _ => false end.
 
 Definition wait_ok (r : srouter U) : bool :=
